@@ -1,1 +1,3 @@
 import Generated.Facts
+import Generated.GoSem
+import Generated.Funcs
